@@ -108,6 +108,15 @@ def render(e, top=True):
     return render(x, False) + ('~%d' % mn if mn == mx and (mn + len(str(x))) % 2 else '~%d..%d' % (mn, mx))
 
 
+def subexprs(e):
+    yield e
+    if e[0] in ('seq', 'alt'):
+        for x in e[1]:
+            yield from subexprs(x)
+    elif e[0] != 'sym':
+        yield from subexprs(e[1])
+
+
 def grammar_text(e):
     return 'start: %s\nX0: "a"\nX1: "b"\nX2: "c"\nw: "d"\n' % render(e)
 
